@@ -23,7 +23,9 @@ SHAPES = {
         ("1|-1.5", dict(a=1, b=-1.5)), ("11|None", dict(a=11, b=None)), ("-1|None", dict(a=-1, b=None)), ("-2|None", dict(a=-2, b=None)),  # hash(-1) == hash(-2) in CPython
          ("1|1e-9", dict(a=1, b=1e-9)), ("1|0.1", dict(a=1, b=0.1)),
     ]),
-    "float_only": dict(fields=[("a", "float")], values=[("1.5", dict(a=1.5)), ("2.5", dict(a=2.5)), ("0.5", dict(a=0.5)), ("1", dict(a=1)), ("1.0", dict(a=1.0)), ("15", dict(a=15.0))]),
+    "float_only": dict(fields=[("a", "float")], values=[("1.5", dict(a=1.5)), ("2.5", dict(a=2.5)), ("0.5", dict(a=0.5)), ("1", dict(a=1)), ("1.0", dict(a=1.0)), ("15", dict(a=15.0)),
+        # floats that agree to six and more significant digits
+        ("2.0", dict(a=2.0)), ("2.0000001", dict(a=2.0000001)), ("1e-11", dict(a=1e-11)), ("1.0000004e-11", dict(a=1.0000004e-11)), ("100000.0", dict(a=100000.0)), ("100000.4", dict(a=100000.4))]),
     "enum": dict(fields=[("e", "Enum")], values=[("A", dict(e="A")), ("B", dict(e="B"))]),
     "nested": dict(fields=[("inner", "Inner"), ("k", "int")], values=[
         ("(1,2)|3", dict(inner=(1, 2), k=3)), ("(1,23)|0", dict(inner=(1, 23), k=0)), ("(12,3)|0", dict(inner=(12, 3), k=0)), ("(1,2)|4", dict(inner=(1, 2), k=4)),
@@ -307,6 +309,49 @@ print(json.dumps(out, sort_keys=True))
 """
 
 
+def self_delegating(order):
+    """A generator that normalises its parameters by handing on its *own* result for other parameters
+    (`if p.n < 1: return Clamp(n=1)`): the Module keeps the name of the call that built it, in whatever order the calls
+    are made, and repeated calls are memoised."""
+    import hdl21 as h
+
+    h.generator.cache.reset()
+    runs = []
+
+    @h.paramclass
+    class CP:
+        n = h.Param(dtype=int, desc="n", default=1)
+
+    @h.generator
+    def Clamp(p: CP) -> h.Module:
+        runs.append(p.n)
+        if p.n < 1:
+            return Clamp(n=1)
+        m = h.Module()
+        m.x = h.Port()
+        m.r = h.R(r=p.n)(p=m.x, n=m.x)
+        return m
+
+    try:
+        mods = {n: Clamp(n=n) for n in order}
+        again = {n: Clamp(CP(n=n)) for n in reversed(order)}
+        if any(again[n] is not mods[n] for n in order):
+            return "repeated calls are not memoised"
+        low = [mods[n] for n in order if n < 1]
+        if 1 in mods and any(m is not mods[1] for m in low):
+            return "a clamped call did not hand on the Module of the call it delegates to"
+        names = sorted({m.name for n, m in mods.items() if n <= 1})
+        if names != ["Clamp(n=1)"]:
+            return f"the Module built by Clamp(n=1) is called {names} after the calls {list(order)}"
+        if 2 in mods and mods[2].name != "Clamp(n=2)":
+            return f"Clamp(n=2) is called {mods[2].name!r}"
+        if sorted(set(runs)) != sorted(set(order) | ({1} if low else set())) or len(runs) != len(set(runs)):
+            return f"the body ran for {runs} during the calls {list(order)}"
+    except Exception as e:
+        return "raised: " + short_exc(e)
+    return None
+
+
 def two_files(order):
     """Same-named generators and modules defined in two source files with the same base name, used in the given order
     (fresh process; see c09_twofiles.py)."""
@@ -378,6 +423,13 @@ def run(ctx):
     ctx.fam("fresh_processes", runs=len(outs))
     if len(set(outs)) != 1:
         ctx.violation(dict(kind="name_process", shape="*", form="-"), dict(outputs=outs), "generated names differ between processes")
+    # a generator delegating to itself for clamped parameters, every order of four calls
+    for order in itertools.permutations((1, 0, -3, 2)):
+        bad = self_delegating(order)
+        ctx.count(states=1, transitions=8, traces_validated_against_impl=1)
+        ctx.fam("self_delegating_generator", orders=1)
+        if bad:
+            ctx.violation(dict(kind="name_history", shape="self_delegating", form="-"), dict(self_delegating=list(order)), bad)
     # same-named generators in two source files of the same base name: names carry their own package, in either use order
     tf = {" > ".join(o): two_files(o) for o in (["liba", "libb"], ["libb", "liba"])}
     ctx.count(states=2, transitions=4, traces_validated_against_impl=2)
@@ -393,6 +445,10 @@ def run(ctx):
 
 def replay(body):
     c = body["case"]
+    if c.get("self_delegating"):
+        bad = self_delegating(tuple(c["self_delegating"]))
+        print("replay:", bad or "holds")
+        return 1 if bad else 0
     if c.get("two_files"):
         bad = judge_two_files({k: two_files(k.split(" > ")) for k in c["results"]})
         print("replay:", bad or "holds")
